@@ -902,6 +902,8 @@ var rtSectFeats = map[string]func(x *rtCtx) string{
 	"s.size.a5":     func(x *rtCtx) string { return rtE(x.doc.SetPageSize(document.PageSizeA5)) },
 	"s.size.a4":     func(x *rtCtx) string { return rtE(x.doc.SetPageSize(document.PageSizeA4)) },
 	"s.size.custom": func(x *rtCtx) string { return rtE(x.doc.SetCustomPageSize(100, 200)) },
+	"s.size.custom.wide":   func(x *rtCtx) string { return rtE(x.doc.SetCustomPageSize(300, 200)) },
+	"s.size.custom.square": func(x *rtCtx) string { return rtE(x.doc.SetCustomPageSize(210, 210)) },
 	"s.orient.landscape": func(x *rtCtx) string {
 		return rtE(x.doc.SetPageOrientation(document.OrientationLandscape))
 	},
